@@ -15,19 +15,24 @@ theorem bitLen_or_one_le (x : Nat) (hx : x < 18446744073709551616) : bitLen (x |
   apply bitLen_le_of_lt_two_pow 64
   exact Nat.or_lt_two_pow (by simpa using hx) (by decide)
 
-/-- by exhaustion over the 65 possible bit lengths: whatever arithmetic the source uses to turn `bits.Len64(x|1)`
-    into a byte count is evaluated for each of them (robust against rewrites of the formula) -/
+/-- by exhaustion over the possible bit lengths: whatever arithmetic the source uses to turn `bits.Len64(x|1)` (or
+    `bits.Len64(x)`) into a byte count is evaluated for each of them (robust against rewrites of the formula) -/
 theorem src_Sov (x : Nat) (hx : x < 18446744073709551616) : Xf.runtime_Sov x = .ok (sov x : Int) := by
-  have hb := bitLen_or_one_le x hx
-  have hb1 : 1 ≤ bitLen (x ||| 1) := by
-    have hne : x ||| 1 ≠ 0 := by
-      intro h0
-      have : (x ||| 1) % 2 = 1 := Nat.or_mod_two_eq_one.mpr (Or.inr rfl)
-      omega
-    rw [bitLen_pos hne]; omega
-  unfold Xf.runtime_Sov sov Go.bitsLen64
-  generalize bitLen (x ||| 1) = n at hb hb1 ⊢
-  revert n
-  decide
+  by_cases hx0 : x = 0
+  · subst hx0
+    have h0 : bitLen 0 = 0 := bitLen_zero
+    have h1 : bitLen (0 ||| 1) = 1 := by
+      rw [show (0 ||| 1 : Nat) = 1 from rfl, bitLen_pos (by decide), show (1 / 2 : Nat) = 0 from rfl, bitLen_zero]
+    unfold Xf.runtime_Sov sov Go.bitsLen64
+    simp only [h0, h1]
+    decide
+  · have hb : bitLen x ≤ 64 := bitLen_le_of_lt_two_pow 64 x (by simpa using hx)
+    have hb1 : 1 ≤ bitLen x := by rw [bitLen_pos hx0]; omega
+    have hor : bitLen (x ||| 1) = bitLen x := bitLen_or_one_of_ne_zero hx0
+    unfold Xf.runtime_Sov sov Go.bitsLen64
+    simp only [hor]
+    generalize bitLen x = n at hb hb1 ⊢
+    revert n
+    decide
 
 end Pulsar
